@@ -40,5 +40,6 @@ SENDTO = S("send_to", "h_send_to", "p_socket_send_to", [EM, W], ["p_socket_send_
 RECVFROM = S("receive_from", "h_receive_from", "p_socket_receive_from", [EM, W], ["p_socket_receive_from"], canaries=6)
 CCR = S("check_connect_result", "h_check_connect_result", "p_socket_check_connect_result", [EM], canaries=2)
 CONNECT = S("connect", "h_connect", "p_socket_connect", [EM, W, "p_socket_check_connect_result"], ["p_socket_connect"], canaries=5)
+SYS_CLOSE = S("sys_close", "h_sys_close", "p_sys_close", canaries=2, cbmc_flags=["--unwind", "3", "--unwinding-assertions"], functions=["p_sys_close"])   # loop-free today; the small unwind turns a retry loop into a counted second close()
 ACCEPT = S("accept", "h_accept", "p_socket_accept", [EM, W], ["p_socket_accept"], canaries=4, cbmc_flags=["--object-bits", "10"], functions=["p_socket_accept", "p_socket_new_from_fd", "pp_socket_set_details_from_fd", "pp_socket_set_fd_blocking"])
 XFER_UNITS = [ERRMAP, IO_WAIT, SEND, RECV, SENDTO, RECVFROM, CCR, CONNECT, ACCEPT]
